@@ -17,7 +17,7 @@ from . import vertices_check as VC
 
 DICT = "case/system/blockMeshDict"
 SELFTEST_ARG = {"pid": "C12", "faults": "mixed", "tier": "quick"}
-TIERS = {"quick": (1400, "mixed", 50), "thorough": (30000, "enumerate", 1500)}
+TIERS = {"quick": (1200, "mixed", 40), "thorough": (30000, "enumerate", 1500)}
 NAMES = ["inlet", "outlet", "walls", "sym"]
 KINDS = ["wall", "patch", "symmetry", "empty"]
 
@@ -385,7 +385,7 @@ def gen_history(seed: int, faults: str) -> Dict[str, Any]:
     if uses_geometry:
         do({"op": "geometry", "name": "terrain", "props": ["type triSurfaceMesh", "name terrain", 'file "terrain.stl"']})
     shape_name = None
-    if rs.chance(0.25):
+    if rs.chance(0.15):
         # one multi-operation entity, far away from the lattice (never moved, may lose an operation)
         shape_name = "s0"
         kind = rs.pick(["cylinder", "ring", "hemisphere"])
@@ -451,7 +451,7 @@ def gen_history(seed: int, faults: str) -> Dict[str, Any]:
         elif kind == "assemble":
             do({"op": "assemble"})
         elif kind == "crash_in_assemble":
-            do({"op": "crash_in_assemble", "at": rs.randint(1, 13 * len(m.live_ops()))})
+            do({"op": "crash_in_assemble", "at": rs.randint(1, 13 * max(1, len(m.flat_live())))})
             do({"op": "clear"})
         elif kind == "move":
             movable_ops = [x for x in m.assembled_ops if x in m.recipes]
